@@ -27,6 +27,11 @@ package object
 //@ func (*ByteSlice).ContainsRune
 //@ props C19
 //@ safety
+// the search itself is Go's bytes.ContainsRune on the receiver's bytes with that code point - which, for U+FFFD, also
+// matches an invalid UTF-8 sequence; a byte search for the character's encoding does not (seed C19k). The only call
+// into package bytes is that one (strict: any other call into bytes is a failing obligation).
+//@ strictpkgs bytes
+//@ callpre[C19.bytes.containsrune.recv] ContainsRune: same(arg0, b.value)
 //@ assume[recv.nonnil] b != nil
 //@ assume[args.wf] obj != nil && ref(obj) != nil
 //@ ensures[C19.bytes.containsrune.accepts] typeof(obj) == *String && runecount(obj.(*String).value) == 1 ==> typeof(result) == *Bool
@@ -35,7 +40,20 @@ package object
 //@ func (*ByteSlice).IndexRune
 //@ props C19
 //@ safety
+// the search itself is Go's bytes.IndexRune on the receiver's bytes with that code point - which, for U+FFFD, also
+// matches an invalid UTF-8 sequence; a byte search for the character's encoding does not (seed C19k). The only call
+// into package bytes is that one (strict: any other call into bytes is a failing obligation).
+//@ strictpkgs bytes
+//@ callpre[C19.bytes.indexrune.recv] IndexRune: same(arg0, b.value)
 //@ assume[recv.nonnil] b != nil
 //@ assume[args.wf] obj != nil && ref(obj) != nil
 //@ ensures[C19.bytes.indexrune.accepts] typeof(obj) == *String && runecount(obj.(*String).value) == 1 ==> typeof(result) == *Int
 //@ ensures[C19.bytes.indexrune.rejects] typeof(obj) == *String && runecount(obj.(*String).value) != 1 ==> typeof(result) == *Error
+
+//@ external bytes.IndexRune
+//@ modifies nothing
+//@ external bytes.ContainsRune
+//@ modifies nothing
+// (AsString reads a buffer argument through Buffer.String)
+//@ external bytes.(*Buffer).String
+//@ modifies nothing
